@@ -273,9 +273,9 @@ impl Graph for SG {
             Ok(x) => x,
             Err(_) => Vec::new(),
         };
-        if n.model.check(a, &o, &lib_outs, &fpb, &fpa).is_err() {
-            return out;
-        }
+        // the protocol model decides whether this branch is explored further; what the packets look
+        // like to a conformant peer is judged in any case
+        let model_ok = n.model.check(a, &o, &lib_outs, &fpb, &fpa).is_ok();
         let epoch = expected_epoch(n.h.clock_ms, n.h.clock_backwards);
         // every subset of the droppable packets of this step
         let drop_idx: Vec<usize> = o.packets.iter().enumerate().filter(|(_, p)| p.1).map(|(i, _)| i).collect();
@@ -310,7 +310,9 @@ impl Graph for SG {
                     }
                 }
             }
-            out.succ.push(m);
+            if model_ok {
+                out.succ.push(m);
+            }
         }
         out
     }
@@ -435,9 +437,7 @@ impl Graph for CG {
             n.failed_input = true;
         }
         let lib_outs = decode_with_lib(&mut n.lib_de, &o.packets).unwrap_or_default();
-        if n.model.check(a, &o, &lib_outs, &fpb, &fpa).is_err() {
-            return out;
-        }
+        let model_ok = n.model.check(a, &o, &lib_outs, &fpb, &fpa).is_ok();
         let epoch = expected_epoch(n.h.clock_ms, n.h.clock_backwards);
         let drop_idx: Vec<usize> = o.packets.iter().enumerate().filter(|(_, p)| p.1).map(|(i, _)| i).collect();
         self.c.add(5, drop_idx.len() as u64);
@@ -500,7 +500,9 @@ impl Graph for CG {
                     return out;
                 }
             }
-            out.succ.push(m);
+            if model_ok {
+                out.succ.push(m);
+            }
         }
         out
     }
@@ -558,6 +560,16 @@ pub fn run(run: &Run) {
         if thorough {
             splans.push((format!("server chunk size {}: publishing and playing", cs), cs, busy.clone(), d));
         }
+    }
+    // a peer that announced an acknowledgement window first: acknowledgements interleave from the start
+    for &cs in &[128u32, 1] {
+        let w = SAct::Raw { msid: 0, type_id: 5, body: vec![0, 0, 0, 40] };
+        let mut p = vec![w.clone()];
+        p.extend(connect.clone());
+        splans.push((format!("server chunk size {}: peer window 40 announced, connected", cs), cs, p, if thorough { 5 } else { 4 }));
+        let mut p = vec![w];
+        p.extend(busy.clone());
+        splans.push((format!("server chunk size {}: peer window 40 announced, publishing and playing", cs), cs, p, if thorough { 5 } else { 3 }));
     }
     for (name, cs, prefix, depth) in splans {
         let g = SG { c: Counters::new(&NAMES) };
@@ -625,6 +637,11 @@ pub fn run(run: &Run) {
                     }
                 };
                 let mut full: Vec<CAct> = vec![CAct::Clock { ms: BASE_MS + up, backwards: false }];
+                // every other plan starts with the server's window announcement (acknowledgements then
+                // interleave with the client's own control messages on chunk stream 2)
+                if pi % 2 == 1 || (pi == 5 && up == 0) {
+                    full.push(CAct::Raw { msid: 0, type_id: 5, body: vec![0, 0, 0, 40] });
+                }
                 full.extend(prefix.iter().cloned());
                 let mut failed = false;
                 for (i, a) in full.iter().enumerate() {
